@@ -266,6 +266,65 @@ func runRoundScenarios(c *ctx, t *hx.Trace, abs hx.Abs, newEnv func(string, map[
 		closeEnv(r)
 	}
 
+	// ---- a migration is applied while another round is in flight: that round verified (or will verify) its reply
+	// against the former GCA's key; what it received must not be adopted any more
+	nmig := 4
+	if c.tier == "thorough" {
+		nmig = 16
+	}
+	if !c.part("lists") {
+		nmig = 0
+	}
+	for i := 0; i < nmig; i++ {
+		names := []string{"f1", "f2", "f3"}
+		r, err := newEnv(fmt.Sprintf("rounds/overlap-mig/%d", i), map[string]bool{"f1": false, "f2": false, "f3": false})
+		if err != nil {
+			return err
+		}
+		abs.KR.Gen("gca3")
+		old := func(o string) replySpec { // what the former GCA signed: a new server, or an order to move to gca3
+			if i%2 == 0 {
+				return replySpec{servers: []hx.RawServer{r.entry("f9", false, 1, "gca")}}
+			}
+			return replySpec{mig: true, newGCA: "gca3", newID: 333, outer: "gca", servers: []hx.RawServer{r.entry("n3", false, 1, "gca3")}}
+		}
+		for _, k := range names {
+			r.serve(k, "reply", r.build(k, old(k)))
+		}
+		r.mu.Lock()
+		r.parkAt = "r1"
+		r.mu.Unlock()
+		resA := r.roundAs("r1")
+		select {
+		case <-r.parked:
+		case <-time.After(10 * time.Second):
+			return fmt.Errorf("round r1 did not reach the yield point after its pick")
+		}
+		r.mu.Lock()
+		x := r.lastPick["r1"]
+		r.mu.Unlock()
+		for _, y := range names {
+			if y != x {
+				r.serve(y, "reply", r.build(y, replySpec{mig: true, newGCA: "gca2", newID: 900, outer: "gca", servers: []hx.RawServer{r.entry("n1", false, 1, "gca2")}}))
+			}
+		}
+		t.Emit(hx.J{"a": "DriverNote", "note": "r1 waits for " + x + "; r2 runs until the migration to gca2 is applied"})
+		migrated := false
+		for k := 0; k < 8 && !migrated; k++ {
+			<-r.roundAs("r2")
+			migrated = r.cli.C.VerifState().GCAPubKey == abs.KR.Pub("gca2")
+		}
+		t.Emit(hx.J{"a": "DriverNote", "note": fmt.Sprintf("migrated=%v; r1 continues", migrated)})
+		r.unpark <- struct{}{}
+		<-resA
+		t.Emit(hx.J{"a": "LoopProbe", "ok": r.cli.Iterate()})
+		if i%2 == 0 {
+			r.cli.Close()
+			r.cli.Start()
+		}
+		closeEnv(r)
+	}
+
 	// ---- C17: lists and migration orders
 	if c.part("lists") {
 		r, err := newEnv("rounds/lists", map[string]bool{"f1": false, "f2": false, "f3": true})
